@@ -159,6 +159,40 @@ def run(report: Report, n):
         report.hist("runs_per_font", len(runs))
         if problems:
             report.violation(f"cbdt_strike_{i}", dict(kind="property", function="make_cbdt_table", case=rmeta[-1]))
+        # glue_together._copy_cbdt: the same strikes re-sharded for a target whose glyph order differs (the colour
+        # glyphs keep their names, get other glyph ids): runs of consecutive TARGET ids, offsets contiguous again
+        from nanoemoji import glue_together
+
+        t_order = order[:1] + rng.sample(order[1:], len(order) - 1)
+        target = ttLib.TTFont()
+        target.setGlyphOrder(t_order)
+        sizes = {order[g.glyph_id]: len(g.bitmap) + 9 for g in glyphs}  # what _cbdt_data_and_sizes reads from the locations
+        try:
+            glue_together._copy_cbdt(target, font)
+        except Exception as ex:
+            report_failure(report, f"copy_cbdt_{i}", dict(kind="property", function="glue_together._copy_cbdt", gids=gids, target_order=t_order, error=f"{type(ex).__name__}: {ex}"))
+            return
+        t_gids = sorted(target.getGlyphID(order[g]) for g in gids)
+        t_runs, prev_end, t_problems = [], bt.CBDT_HEADER_SIZE, []
+        for strike, data in zip(target["CBLC"].strikes, target["CBDT"].strikeData):
+            st = strike.indexSubTables[0]
+            run_gids = [target.getGlyphID(nm) for nm in st.names]
+            t_runs.append(run_gids)
+            if set(data) != set(st.names):
+                t_problems.append("strike data names differ from index names")
+            for nm in st.names:
+                if bytes(data[nm].imageData) != bytes(by_gid[font.getGlyphID(nm)].bitmap):
+                    t_problems.append(f"image bytes of {nm} differ from the source PNG")
+            lens = [sizes[nm] - 9 for nm in st.names]
+            ocases.append(f"({zlit(prev_end)}, {listlit([zlit(x) for x in lens])}, {listlit([f'({zlit(a)}, {zlit(b)})' for a, b in st.locations])})")
+            ometa.append(dict(function="glue_together._copy_cbdt (offsets)", initial=prev_end, lens=lens, impl_out=list(st.locations)))
+            prev_end = st.locations[-1][-1]
+        rcases.append(f"({listlit([zlit(g) for g in t_gids])}, {listlit([listlit([zlit(g) for g in r]) for r in t_runs])})")
+        rmeta.append(dict(function="glue_together._copy_cbdt (runs in the target's glyph ids)", gids=t_gids, impl_out=t_runs, problems=t_problems))
+        report.count(("rn-copy", tuple(t_gids)), len(t_runs) > 1)
+        report.hist("runs_per_font_after_copy", len(t_runs))
+        if t_problems:
+            report.violation(f"copy_cbdt_strike_{i}", dict(kind="property", function="glue_together._copy_cbdt", case=rmeta[-1]))
         # sbix: one strike, every glyph, same bytes
         font2 = ttLib.TTFont()
         font2.setGlyphOrder(order)
@@ -399,7 +433,7 @@ def main(argv):
     report.rule = (
         "random font metrics (upem, ascender, descender incl. degenerate and tall ems, width 0/fixed, bitmap_resolution "
         "incl. >255) x images (square, narrow, wide; height = resolution or not); glyph-id sets with and without gaps fed "
-        "to the real make_cbdt_table/make_sbix_table on a fake TTFont with real PNG bytes; non-trivial = sane metrics "
+        "to the real make_cbdt_table/make_sbix_table on a fake TTFont with real PNG bytes, then re-sharded by the real glue_together._copy_cbdt for a target with another glyph order; non-trivial = sane metrics "
         "and a non-square image (metrics), more than one run (strikes), value outside the range (nudge)"
     )
     st = proof_gate(report)
